@@ -1,3 +1,18 @@
-/-  C03/Theorems — the ledger for property C03 (every theorem here is audited).  Placeholder. -/
+/-
+  C03/Theorems — the ledger for property C03 (every theorem here is audited).
+-/
+import OttoVerif.C03.Spec
 namespace OttoVerif.C03.Thm
+open OttoVerif.C03 OttoVerif.C03.Spec
+
+/-- a binary-level loop stops without consuming anything at a token that is not one of its operators -/
+theorem binLoop_stop (ops : Tk → Option BinOp) (next : List Tok → R) (n : Nat) (e : E) (ts : List Tok)
+    (h : ops (hd ts) = none) : binLoop ops next (n+1) e ts = some (e, ts) := by
+  simp [binLoop, h]
+
+/-- Kernel-checked witness of the deviation region `relational_chain`: `a < b < c` (ES5: `(a<b)<c`). -/
+def wRel : E := .bin .lt (.bin .lt (.id "a") (.id "b")) (.id "c")
+example : relChain wRel = true := by decide
+example : parseExpression 40 true (print wRel) = some (.bin .lt (.id "a") (.bin .lt (.id "b") (.id "c")), []) := by decide
+
 end OttoVerif.C03.Thm
